@@ -57,6 +57,20 @@ CFG4 = {
 }
 
 
+# four-body, two topology classes, a three-level cascade, spin-1/2 final particles at depth 2 and 3
+CFG4S = {
+    "data": {"dat_order": ["B", "C", "D", "E"]},
+    "decay": {"A": [["R1", "R2"], ["X", "E"]], "R1": ["B", "C"], "R2": ["D", "E"], "X": ["R1", "D"]},
+    "particle": {
+        "$top": {"A": {"J": 0, "P": -1, "mass": 5.0}},
+        "$finals": {"B": {"J": 0.5, "P": 1, "mass": 0.94}, "C": {"J": 0, "P": -1, "mass": 0.5}, "D": {"J": 0, "P": -1, "mass": 0.14}, "E": {"J": 0.5, "P": 1, "mass": 0.94}},
+        "R1": {"J": 0.5, "P": -1, "mass": 1.6, "width": 0.1},
+        "R2": {"J": 0.5, "P": 1, "mass": 1.3, "width": 0.15},
+        "X": {"J": 0.5, "P": 1, "mass": 2.4, "width": 0.3},
+    },
+}
+
+
 def build_model(cfg=None, **amp_kwargs):
     import copy
 
